@@ -166,6 +166,14 @@ func (c *capacityLRU) Contains(key interface{}) bool {
 // recent-ness or deleting it for being stale, and if not, adds the value.
 // Returns whether found and whether an eviction occurred.
 func (c *capacityLRU) AddSizedIfMissing(key, value interface{}, sizeInBytes int64) (bool, bool) {
+	c.lock.Lock()
+	defer c.lock.Unlock()
+
+	_, ok := c.items[key]
+	if ok {
+		return true, false
+	}
+
 	if sizeInBytes < 0 {
 		log.Error("size LRU cache contains or add error",
 			"key", fmt.Sprintf("%v", key),
@@ -176,13 +184,6 @@ func (c *capacityLRU) AddSizedIfMissing(key, value interface{}, sizeInBytes int6
 		return false, false
 	}
 
-	c.lock.Lock()
-	defer c.lock.Unlock()
-
-	_, ok := c.items[key]
-	if ok {
-		return true, false
-	}
 	c.addNew(key, value, sizeInBytes)
 	evicted := c.evictIfNeeded()
 
